@@ -37,7 +37,7 @@ def strategy(tier):
     return S.scenarios(PROFILE)
 
 
-def evaluate(case):
+def evaluate_one(case):
     res = Result()
     trace, ix = run_case(case, run_on=False)
     shape_labels(case, trace, res)
@@ -93,3 +93,7 @@ def evaluate(case):
                       stops=[dict(sched=sp['id'], tau=an['tau'], end=an['rex']['t'] if an['rex'] else None)
                              for sp, an in hits if any(m['forever'] for m in sp['members'])])
     return res
+
+
+from ._rt import with_variants                     # noqa: E402
+evaluate = with_variants(evaluate_one)
